@@ -143,6 +143,8 @@ def run(ctx):
     ctx.guarded('R16e', REGC, lambda: r16e(ctx))
     ctx.rule('R16f', 'upload_and_register_session_shards has no successful shortcut: every non-error return consolidated the session directory and joined every shard upload')
     ctx.guarded('R16f', UPLC, lambda: shard_upload_no_shortcut(ctx, 'R16f'))
+    ctx.rule('R16g', 'pipeline completeness: every successful return of add_data_impl, finish, process_aggregated_data_as_xorb and finalize_impl passed the calls that hand its data on (chunks -> deduper, file -> session, aggregate -> xorb upload + file records, session -> shard upload)')
+    ctx.guarded('R16g', 'pipeline', lambda: r16g(ctx))
 
 
 def r16a(ctx):
@@ -419,6 +421,64 @@ def shard_upload_no_shortcut(ctx, rule):
         ok = bool(cons) and bool(none_edges) and ap.cfg.must_pass(b, via_blocks=cons) and ap.cfg.must_pass(b, via_edges=none_edges)
         ctx.check(ok, rule, UPLC, 'Ok<-consolidate+join', ap.loc(b, si), 'a successful return has consolidated the session directory and joined all shard upload tasks',
                   'upload_and_register_session_shards can report success without consolidating / uploading the shards in the session directory: shards cut earlier in the session never reach the store or the cache')
+
+
+FINISHC = 'data::file_cleaner::SingleFileCleaner::finish::{closure#0}'
+ADDIMPLC = 'data::file_cleaner::SingleFileCleaner::add_data_impl::{closure#0}'
+# pipeline stage -> steps every successful return must have passed (callee suffixes); bypass = name of an emptiness test on
+# the result of the first step whose true edge may skip the rest
+ESSENTIAL = [
+    (ADDIMPLC, ['deduplication::chunking::Chunker::next_block', 'FileDeduper::process_chunks'], 'is_empty'),
+    (FINISHC, ['FileDeduper::finalize', 'FileUploadSession::register_single_file_clean_completion'], None),
+    (PROC + '::{closure#0}', ['DataAggregator::finalize', 'FileUploadSession::register_new_xorb_for_upload'], None),
+    (FIN, ['FileUploadSession::process_aggregated_data_as_xorb', 'SessionShardInterface::upload_and_register_session_shards'], None),
+]
+
+
+def r16g(ctx):
+    """pipeline completeness: no stage can report success having skipped the step that hands its data on"""
+    from .core import bool_edges, edges_where, strip_generics as sg_
+    F = ctx.F
+    n = 0
+    for (path, steps, bypass) in ESSENTIAL:
+        a = an(F.body(path))
+        oks = [(b, si) for (b, si, k, e) in a.ret_sites() if k != 'err']
+        first = None
+        for st in steps:
+            cs = [c for c in a.calls() if sg_(a.term(c).get('fn', '')).endswith(st.split('::', 1)[-1]) or sg_(a.term(c).get('res', '') or '').endswith(st)]
+            if not ctx.check(len(cs) >= 1, 'R16g', path, st.split('::')[-1], '-', 'the stage calls %s' % st.split('::')[-1], 'the stage no longer calls %s: cannot establish completeness' % st):
+                continue
+            if first is None:
+                first = cs
+            cut = []
+            if bypass:
+                # nothing to hand on: the input slice is empty, or (after the first step) that step produced nothing
+                is_in = lambda z: z[0] in ('upvar', 'param') and (z[1] == 'data' if z[0] == 'upvar' else z[2] == 'data')
+                te0, _ = bool_edges(a, lambda e: e[0] == 'call' and sg_(e[1]).split('::')[-1] == bypass and is_in(e[2][0]))
+                cut = list(te0) + list(edges_where(a, lambda op, l, r: op == 'Eq' and l[0] in ('len', 'call') and 'len' in flow.show(l) and flow.mentions(l, is_in) and r[:2] == ('const', 0)))
+                if st is not steps[0]:
+                    te, fe = bool_edges(a, lambda e: e[0] == 'call' and sg_(e[1]).split('::')[-1] == bypass and any(a.rooted_at(e[2][0], f_) for f_ in first))
+                    cut += list(te)
+            for (b, si) in oks:
+                n += 1
+                ctx.check(a.cfg.must_pass(b, via_blocks=cs, also_cut_edges=cut), 'R16g', path, 'Ok<-' + st.split('::')[-1], a.loc(b, si),
+                          'a successful return passed %s%s' % (st.split('::')[-1], ' (or the block produced no chunks)' if cut else ''),
+                          'the stage can report success without having called %s: data accepted so far is silently dropped from the upload' % st.split('::')[-1])
+    # the file-info loop of process_aggregated_data_as_xorb runs to exhaustion and registers every file
+    from . import loops as L
+    a = an(F.body(PROC + '::{closure#0}'))
+    adds = a.calls('data::shard_interface::SessionShardInterface::add_file_reconstruction_info')
+    if ctx.check(len(adds) == 1, 'R16g', PROC, 'add_file_reconstruction_info', '-', 'one registration of file reconstruction info'):
+        from . import rules_c05 as c05
+        lp = c05.loop_of(a, adds[0])
+        fin = a.calls('deduplication::data_aggregator::DataAggregator::finalize')
+        wp = L.whole_pass(a, lp, lambda z: bool(fin) and a.rooted_at(z, fin[0])) if lp else None
+        ok = wp is not None and L.every_iteration_passes(a, lp, adds[0])
+        oks = [(b, si) for (b, si, k, e) in a.ret_sites() if k != 'err']
+        ok = ok and all(a.cfg.must_pass(b, via_edges=wp['exhaust']) for (b, si) in oks)
+        ctx.check(ok, 'R16g', PROC, 'file infos', a.loc(adds[0]), 'every file of the aggregate is registered: the loop over DataAggregator::finalize().1 runs to exhaustion, each iteration registers, success only after it',
+                  'a file record of the aggregate can be left unregistered although process_aggregated_data_as_xorb reports success')
+    ctx.floor('R16g', 'success-return x essential-step obligations in the upload pipeline', n, 8)
 
 
 def short(n):
